@@ -450,7 +450,9 @@ impl C13 {
         if kind != "write" {
             o.insert("inner".into(), json!(dn.fl_called));
         }
-        out.count(&format!("{kind}:{}", obs["r"].as_str().unwrap_or("?")));
+        let class = format!("{kind}:{}", obs["r"].as_str().unwrap_or("?"));
+        out.count(&class);
+        obs.as_object_mut().unwrap().insert("class".into(), json!(class));
         obs
     }
 
@@ -499,7 +501,9 @@ impl C13 {
             }
         };
         obs.as_object_mut().unwrap().insert("tr".into(), trace_json(&dn.rtrace));
-        out.count(&format!("read:{}", obs["r"].as_str().unwrap_or("?")));
+        let class = format!("read:{}", obs["r"].as_str().unwrap_or("?"));
+        out.count(&class);
+        obs.as_object_mut().unwrap().insert("class".into(), json!(class));
         obs
     }
 
@@ -619,8 +623,12 @@ impl C13 {
             },
             _ => json!({"bad_op": true}),
         };
-        out.count(&format!("tamper:{kind}:{}", obs["applied"].as_bool().unwrap_or(false)));
+        let class = format!("tamper:{kind}:{}", obs["applied"].as_bool().unwrap_or(false));
+        out.count(&class);
         let mut obs = obs;
+        if let Some(o) = obs.as_object_mut() {
+            o.insert("class".into(), json!(class));
+        }
         if let Some(pos) = obs["pos"].as_u64() {
             if kind != "trunc" && dn.decoincide(pos as usize, &old_wire, &old_tags) {
                 out.count("tamper:decoincided");
@@ -738,7 +746,7 @@ impl Gen {
         }
     }
     fn write(&mut self, d: usize, len: u64, tw: Vec<Value>) {
-        self.frames[d] += 2;
+        self.frames[d] += 1;
         self.ops.push(json!({"op": "write", "dir": d, "len": len, "tw": tw}));
     }
     fn flush(&mut self, d: usize, tw: Vec<Value>, fl: &str) {
@@ -767,7 +775,7 @@ impl Gen {
     /// flush everything and read until nothing is left, then compare totals
     fn drain(&mut self, d: usize, expect_all: bool) {
         self.flush(d, vec![json!(BIG), json!(BIG), json!(BIG)], "ok");
-        for _ in 0..self.frames[d] + 2 {
+        for _ in 0..self.frames[d] + 1 {
             self.read(d, 100_000, vec![json!(BIG), json!(BIG), json!(BIG)]);
         }
         self.ops.push(json!({"op": "check", "dir": d, "expect_all": expect_all}));
@@ -1063,7 +1071,10 @@ impl Prop for C13 {
         // one long transfer in each direction
         g.init();
         g.write_all(0, 200_000);
-        g.drain(0, false);
+        g.drain(0, true);
+        g.init();
+        g.write_all(1, 140_000);
+        g.drain(1, true);
         g.ops
     }
 
